@@ -187,12 +187,25 @@ pub fn run(seed: u64, n: usize, out: &Path, thorough: bool) -> anyhow::Result<()
             }
         }
         // (c) the stream, chunked at random positions; complete, truncated, or corrupted
-        for variant in 0..3 {
+        for variant in 0..4 {
             let mut data = wire.clone();
             let (complete, truncated) = match variant {
                 0 => (true, false),
                 1 => { let cut = rng.below(data.len() as u64 + 1) as usize; data.truncate(cut); (cut == wire.len(), cut != wire.len()) }
-                _ => { data = corrupt(&mut rng, &data); if rng.chance(1, 3) { data.splice(0..0, [0x7f, 0xff, 0xff, 0xff]); } (false, false) }
+                2 => { data = corrupt(&mut rng, &data); if rng.chance(1, 3) { data.splice(0..0, [0x7f, 0xff, 0xff, 0xff]); } (false, false) }
+                _ => {
+                    // a length header that is a little too small or too large for its message
+                    let mut pos = 0usize;
+                    let k = rng.below(frames.len().max(1) as u64) as usize;
+                    for f in frames.iter().take(k) { pos += 4 + f.len(); }
+                    if pos + 4 <= data.len() {
+                        let len = u32::from_be_bytes([data[pos], data[pos + 1], data[pos + 2], data[pos + 3]]);
+                        let d = 1 + rng.below(3) as u32;
+                        let new = if rng.chance(1, 2) { len.saturating_sub(d) } else { len + d };
+                        data[pos..pos + 4].copy_from_slice(&new.to_be_bytes());
+                    }
+                    (false, false)
+                }
             };
             let mut chunks: Vec<Vec<u8>> = Vec::new();
             let mut pos = 0;
@@ -203,45 +216,56 @@ pub fn run(seed: u64, n: usize, out: &Path, thorough: bool) -> anyhow::Result<()
                 chunks.push(data[pos..end].to_vec());
                 pos = end;
             }
-            let mut buf = BytesMut::new();
-            let mut got: Vec<Vec<u8>> = Vec::new();
-            let mut err = false;
-            let mut panicked = false;
-            'outer: for c in &chunks {
-                buf.extend_from_slice(c);
-                loop {
-                    match catch(|| codec_decode(&mut buf)) {
-                        None => { panicked = true; break 'outer; }
-                        Some(Err(_)) => { err = true; break 'outer; }
-                        Some(Ok(None)) => break,
-                        Some(Ok(Some(m))) => {
-                            let mut o = BytesMut::new();
-                            codec_encode(m, &mut o)?;
-                            got.push(o[4..].to_vec());
+            // (messages re-encoded, error, eof error, panicked, bytes left)
+            let feed = |chunks: &[Vec<u8>]| -> anyhow::Result<(Vec<Vec<u8>>, bool, bool, bool, usize)> {
+                let mut buf = BytesMut::new();
+                let mut got: Vec<Vec<u8>> = Vec::new();
+                let mut err = false;
+                let mut panicked = false;
+                'outer: for c in chunks {
+                    buf.extend_from_slice(c);
+                    loop {
+                        match catch(|| codec_decode(&mut buf)) {
+                            None => { panicked = true; break 'outer; }
+                            Some(Err(_)) => { err = true; break 'outer; }
+                            Some(Ok(None)) => break,
+                            Some(Ok(Some(m))) => {
+                                let mut o = BytesMut::new();
+                                codec_encode(m, &mut o)?;
+                                got.push(o[4..].to_vec());
+                            }
                         }
                     }
                 }
-            }
-            // end of stream: tokio's default decode_eof reports leftover bytes as an error
-            let eof_err = if err || panicked { false } else {
-                loop {
-                    match catch(|| codec_decode_eof(&mut buf)) {
-                        None => { panicked = true; break false; }
-                        Some(Err(_)) => break true,
-                        Some(Ok(None)) => break false,
-                        Some(Ok(Some(_))) => continue,
+                // end of stream: tokio's default decode_eof reports leftover bytes as an error
+                let eof_err = if err || panicked { false } else {
+                    loop {
+                        match catch(|| codec_decode_eof(&mut buf)) {
+                            None => { panicked = true; break false; }
+                            Some(Err(_)) => break true,
+                            Some(Ok(None)) => break false,
+                            Some(Ok(Some(_))) => continue,
+                        }
                     }
-                }
+                };
+                Ok((got, err, eof_err, panicked, buf.len()))
             };
-            stats.inc(match variant { 0 => "stream_complete", 1 => "stream_truncated", _ => "stream_corrupted" });
+            let (got, err, eof_err, panicked, rest_len) = feed(&chunks)?;
+            // the same bytes in one piece and byte by byte: the outcome must not depend on the chunking
+            let whole = feed(&[data.clone()])?;
+            let bytewise = feed(&data.iter().map(|b| vec![*b]).collect::<Vec<_>>())?;
+            let same = |o: &(Vec<Vec<u8>>, bool, bool, bool, usize)| o.0 == got && o.1 == err && o.3 == panicked && (o.1 || (o.2 == eof_err && o.4 == rest_len));
+            let chunk_indep = same(&whole) && same(&bytewise);
+            if !chunk_indep { stats.inc("chunking_dependent"); }
+            stats.inc(match variant { 0 => "stream_complete", 1 => "stream_truncated", 2 => "stream_corrupted", _ => "stream_header_tweaked" });
             stats.add("stream_chunks", chunks.len() as u64);
             if panicked { stats.inc("panics"); }
             let coq = format!(
-                "(Stream {} {} {} {} {} {} {} {})",
+                "(Stream {} {} {} {} {} {} {} {} {})",
                 clist(&chunks, |c| cbytes(c)), clist(&frames, |f| cbytes(f)), cbool(complete), cbool(truncated),
-                clist(&got, |g| cbytes(g)), cbool(err || panicked), cbool(eof_err), buf.len()
+                clist(&got, |g| cbytes(g)), cbool(err || panicked), cbool(eof_err), rest_len, cbool(chunk_indep)
             );
-            push(&mut cw, &mut stats, coq, format!("{{\"stream\":{},\"bytes\":{},\"chunks\":{},\"decoded\":{},\"error\":{},\"eof_error\":{},\"panicked\":{}}}", variant, data.len(), chunks.len(), got.len(), err, eof_err, panicked), !got.is_empty())?;
+            push(&mut cw, &mut stats, coq, format!("{{\"stream\":{},\"bytes\":{},\"chunks\":{},\"decoded\":{},\"error\":{},\"eof_error\":{},\"panicked\":{},\"outcome_independent_of_chunking\":{},\"data\":\"{}\"}}", variant, data.len(), chunks.len(), got.len(), err, eof_err, panicked, chunk_indep, hex::encode(&data)), !got.is_empty())?;
         }
         // heads
         {
